@@ -233,7 +233,7 @@ func (r *renderer) paren(e *Expr, need bool) {
 
 func isPrimary(e *Expr) bool {
 	switch e.Op {
-	case "num", "lit", "var", "call":
+	case "num", "lit", "var", "call", "numtext":
 		return true
 	}
 	return false
@@ -253,6 +253,8 @@ func (r *renderer) expr(e *Expr) {
 			return
 		}
 		r.t(s)
+	case "numtext":
+		r.t(str(e.S)) // a Number literal given by its spelling
 	case "lit":
 		s := str(e.S)
 		switch {
